@@ -102,9 +102,11 @@ template<class T,class Api,int dir> static void k_stepn(const InN<T>& in,vf::Ctx
 	T got= dir>0? Api::next(in.x,n) : Api::prev(in.x,n);
 	c.cls(n==0?"n=0":(n==1?"n=1":(n<=64?"n=2..64":"n>64"))); if((o<0&&w>0)||(o>0&&w<0)) c.cls("crosses-zero"); if(o!=0&&w==0) c.cls("lands-on-zero"); if(o==0&&n>0) c.cls(signbit_b(in.x)?"starts-at--0":"starts-at-+0");
 	judge_step<T>(c,in.x,dir,n,got);
-	// "the n-step overloads equal n single steps" (relation between two glm functions stated by the property): bitwise
+	// "the n-step overloads equal n single steps" (relation between two glm functions stated by the property): same value
+	// (same index in the IEEE order; +0 and -0 are the same value; NaN only matches NaN)
 	T s=in.x; for(int i=0;i<n;i++) s= dir>0? Api::next(s) : Api::prev(s);
-	if(!same(got,s)) c.fail(std::string(RN[regime_i<T>(o)])+":differs-from-n-single-steps",got,s);
+	bool eq= (isnan_b(got)||isnan_b(s))? (isnan_b(got)&&isnan_b(s)) : word(got)==word(s);
+	if(!eq) c.fail(std::string(RN[regime_i<T>(o)])+":differs-from-n-single-steps",got,s);
 }
 // floatDistance(x, nextFloat(x, n)) = n
 template<class T> static std::string dist_class(T x,T y){ if(signbit_b(x)==signbit_b(y)) return "same-signbit"; typename K<T>::Wd o=word(x), w=word(y);
@@ -217,8 +219,8 @@ template<class T> static void run_type(const char* tag){
 				InV<T> iv; memset(&iv,0,sizeof iv); for(int n=0;n<=140;n+=4){ for(int j=0;j<4;j++){ iv.x[j]= j==0? x : unord<T>((Wd)(k+j*17-20)); iv.n[j]=(I)(n+j); } vecs(c,iv); } } }
 	});
 	// ---- random part
-	u64 n1=vf::N(std::is_same<T,float>::value? 200000: 10000000, std::is_same<T,float>::value? 2000000: 300000000);
-	u64 nn=vf::N(1000000,30000000), nv=vf::N(300000,10000000);
+	u64 n1=vf::N(std::is_same<T,float>::value? 200000: 10000000, std::is_same<T,float>::value? 2000000: 100000000);
+	u64 nn=vf::N(1000000,20000000), nv=vf::N(300000,5000000);
 	lab=std::string("random-")+tag;
 	vf::parallel(lab.c_str(),[&](int t,int TT,vf::Ctx& c){
 		for(u64 i=t;i<n1;i+=TT) steps1(c,random_x<T>(c.rng,P));
